@@ -909,6 +909,13 @@ def gated_schedules(ctx, deps):
             seen_pairs.add(key)
             out.append({"fast": True, "done": done, "holders": holders, "arrivals": [hold[0][0]] * 12, "repeat": 400 if T else 60})
             n_pub += 1
+    # (C) the initial state itself: many threads make their first touch of the same table at the same instant (the race to
+    #     claim an initialisation), then use the table: whole processes with results compared
+    n_claim = 0
+    tables = sorted({json.loads(l)["table"] for l in open(deps) if '"table"' in l})
+    for tb in tables:
+        out.append({"fast": False, "done": [], "holders": [], "arrivals": [tb] * 16, "repeat": 300 if T else 40})
+        n_claim += 1
     # (F) the states as they are, whole processes with results compared (a seeded sample in the quick tier)
     keys = sorted(scen)
     rnd = __import__("random").Random(int(ctx.seed))
@@ -927,10 +934,10 @@ def gated_schedules(ctx, deps):
     r = tlc_trace_seq("Trace_TableInit", "Trace_TableInit.cfg", gtrace, extra_env={"DEPS": deps})
     ctx.states += r["states"]
     ctx.transitions += r["transitions"]
-    log("[gated] %d model states -> %d drivable; %d pair + %d publish + %d full scenarios, %d processes, %d hangs, %d unreached; accepted=%s" % (
-        len(views), len(scen), n_pair, n_pub, n_full, info["procs"], info["hangs"], info["unreached"], r["accepted"]))
+    log("[gated] %d model states -> %d drivable; %d pair + %d publish + %d claim + %d full scenarios, %d processes, %d hangs, %d unreached; accepted=%s" % (
+        len(views), len(scen), n_pair, n_pub, n_claim, n_full, info["procs"], info["hangs"], info["unreached"], r["accepted"]))
     ctx.extra["gated"] = {"model_states_with_running_initialiser": len(views), "drivable_states": len(scen), "pair_scenarios": n_pair,
-                          "publish_scenarios": n_pub, "full_scenarios": n_full, "processes": info["procs"], "unreached": info["unreached"]}
+                          "publish_scenarios": n_pub, "claim_scenarios": n_claim, "full_scenarios": n_full, "processes": info["procs"], "unreached": info["unreached"]}
     if r["accepted"]:
         ctx.traces += info["procs"]
         ctx.distinct += info["procs"]
